@@ -149,7 +149,7 @@ std::unique_ptr<NodeResult> AccessNode::evaluate(PSC::Context &ctx) {
     } catch (PSC::NotDefinedError &e) {
         auto def = ctx.getEnumElement(token.value);
         if (def != nullptr)
-            return std::make_unique<NodeResult>(def, PSC::DataType(PSC::DataType::ENUM, &def->definitionName));
+            return std::make_unique<NodeResult>(def, PSC::DataType(PSC::DataType::ENUM, &def->getDefinition(ctx).name));
         throw e;
     }
 
